@@ -22,6 +22,7 @@ type SolverStats struct {
 	TimeS    float64
 	MaxMs    float64
 	Restarts int
+	Errors   int
 }
 
 type Solver struct {
@@ -147,7 +148,7 @@ func (s *Solver) emit(t *Term) {
 		s.emitted[x.id] = true
 		switch x.op {
 		case OpVar:
-			s.send(fmt.Sprintf("(declare-const |%s| %s)", x.name, smtSort(x.w)))
+			s.send(fmt.Sprintf("(declare-const %s %s)", x.smtRef(), smtSort(x.w)))
 		case OpApp:
 			n := ufName(x)
 			if !s.declared[n] {
@@ -228,6 +229,7 @@ func (s *Solver) Check(conj []*Term) string {
 		}
 		if strings.HasPrefix(line, "(error") {
 			fmt.Fprintf(os.Stderr, "SOLVER ERROR: %s\n", line)
+			s.Stats.Errors++
 			res = "unknown"
 			// an error line may or may not be followed by a result; resync by echo
 			s.send("(echo \"sync\")")
@@ -395,6 +397,9 @@ func parseGetValue(text string, m Model) {
 		name := toks[i]
 		i++
 		name = strings.Trim(name, "|")
+		if k := strings.LastIndexByte(name, ':'); k >= 0 {
+			name = name[:k]
+		}
 		v, ni := parseValue(toks, i)
 		m[name] = v
 		i = ni
@@ -509,7 +514,7 @@ func (s *Solver) Dump(conj []*Term) string {
 		}
 		switch t.op {
 		case OpVar:
-			fmt.Fprintf(&sb, "(declare-const |%s| %s)\n", t.name, smtSort(t.w))
+			fmt.Fprintf(&sb, "(declare-const %s %s)\n", t.smtRef(), smtSort(t.w))
 		case OpApp:
 			n := ufName(t)
 			if !declared[n] {
